@@ -748,3 +748,5 @@ func (p *jsonRef) str() (string, bool) {
 	}
 	return "", false
 }
+
+func mathBits(f float64) uint64 { return math.Float64bits(f) }
